@@ -56,6 +56,10 @@ def c12_cases(tier):
     # literal kinds (rustc rejects most of them itself; the derive must not accept either)
     for cls, v, owner in [('lit-byte', "C = b'a'", 'any'), ('lit-char', "C = 'a'", 'any'), ('lit-float', 'C = 5.0', 'any'), ('lit-str', 'C = "5"', 'any'), ('lit-bool', 'C = true', 'any'), ('lit-bytestr', 'C = b"5"', 'any')]:
         pair('expr/' + cls, ['A = 1', 'B = 2', v], G, owner=owner)
+    # a byte literal is a legal discriminant of a repr(u8) enum as far as rustc is concerned: the derive itself has to refuse it
+    pair('expr/lit-byte-u8', ['A = 1', 'B = 2', "C = b'a'"], ['A = 1', 'B = 2', 'C = 97'], repr_='u8')
+    pair('expr/lit-byte-escape-u8', ['A = 1', "B = b'\\x53'"], ['A = 1', 'B = 0x53'], repr_='u8')
+    pair('expr/neg-lit-byte', ['A = 1', "B = -b'a'"], ['A = 1', 'B = -97'], repr_='i16', owner='any')
     # outside i64
     pair('range/above-i64', ['A = 1', 'B = 9223372036854775808'], ['A = 1', 'B = 9223372036854775807'], repr_='u64')
     pair('range/above-i64-u128', ['A = 1', 'B = 0x1_0000_0000_0000_0000'], ['A = 1', 'B = 0xFFFF_FFFF_FFFF_FFF'], repr_='u128')
@@ -319,6 +323,9 @@ def c14_cases(tier):
     fams.append(('maxvalue3', [('A', -1, None), ('B', 9223372036854775807, None), ('C', 3, None)]))
     fams.append(('maxfirst2', [('A', 9223372036854775807, None), ('B', 0, None)]))
     fams.append(('nearmax3', [('A', 9223372036854775806, None), ('B', 9223372036854775807, None), ('C', 9223372036854775805, None)]))
+    fams.append(('numbered3', [('A', 1, 'V1'), ('B', 2, 'V2'), ('C', 3, 'V10')]))       # byte-wise 'V1' < 'V10' < 'V2': no natural-number order
+    fams.append(('leadingzero2', [('A', 1, 'X01'), ('B', 2, 'X1')]))
+    fams.append(('digits2', [('A', 1, '10'), ('B', 2, '9')]))
     fams.append(('nonascii3', [('A', 1, 'z'), ('B', 2, '\u00e4'), ('C', 3, 'Z')]))     # byte-wise UTF-8 order: 'Z' < 'z' < 'ä'
     for fam, vs in fams:
         for perm in itertools.permutations(range(len(vs))):
@@ -326,12 +333,31 @@ def c14_cases(tier):
             by_value = all(order[i][1] < order[i + 1][1] for i in range(len(order) - 1))
             nm = [(o[2] if o[2] is not None else o[0]).encode('utf8') for o in order]
             by_name = all(nm[i] < nm[i + 1] for i in range(len(nm) - 1))
-            for cfg, ok in (('sorted(value)', by_value), ('sorted(name)', by_name), ('sorted(name, value)', by_name and by_value), ('sorted(value, name)', by_name and by_value), ('sorted', True), (None, True)):
+            # (the unconstrained declaration follows every sorted(..) one: whatever the parser remembers from the previous enum of the crate shows)
+            for cfg, ok in (('sorted(value)', by_value), (None, True), ('sorted(name)', by_name), (None, True), ('sorted(name, value)', by_name and by_value), (None, True),
+                            ('sorted(value, name)', by_name and by_value), ('sorted', True), (None, True)):
                 n[0] += 1
                 attrs = ['#[enum_tools(into, %s)]' % cfg] if cfg else ['#[enum_tools(into)]']
                 variants = [('%s%s = %d' % (('#[enum_tools(rename = "%s")] ' % o[2]) if o[2] is not None else '', o[0], o[1])) for o in order]
                 out.append(case('c14_%04d' % n[0], 'C14', '%s/%s' % (fam, cfg), enum_src(attrs, 'i64', variants), 'accept' if ok else 'reject', 'derive',
                                 note='order=%s by_value=%s by_name=%s' % ([o[0] for o in order], by_value, by_name)))
+    # what the parser remembers from the previous enum: in the crate of accept cases an unconstrained, unsorted declaration directly
+    # follows a declaration that was checked under sorted(name, value) (and under each single flag)
+    for fam, vs in fams:
+        if len(vs) < 2:
+            continue
+        srt = sorted(vs, key=lambda o: o[1])
+        nm = [(o[2] if o[2] is not None else o[0]).encode('utf8') for o in srt]
+        if not all(nm[i] < nm[i + 1] for i in range(len(nm) - 1)):
+            continue                      # no order of this family is sorted by both
+        def variants_of(order):
+            return [('%s%s = %d' % (('#[enum_tools(rename = "%s")] ' % o[2]) if o[2] is not None else '', o[0], o[1])) for o in order]
+        for cfg in ('sorted(name, value)', 'sorted(value)', 'sorted(name)'):
+            n[0] += 1
+            out.append(case('c14_%04d' % n[0], 'C14', '%s/after-%s/first' % (fam, cfg), enum_src(['#[enum_tools(into, %s)]' % cfg], 'i64', variants_of(srt)), 'accept', 'derive'))
+            n[0] += 1
+            out.append(case('c14_%04d' % n[0], 'C14', '%s/after-%s/unconstrained' % (fam, cfg), enum_src(['#[enum_tools(into)]'], 'i64', variants_of(srt[::-1])), 'accept', 'derive',
+                            note='reversed order, no sorted feature: must compile whatever was derived before'))
     # implicit discriminants: A, B=5, C (=6), D=1  etc.
     impl = [
         (['A', 'B', 'C'], True, True), (['B', 'A', 'C'], True, False), (['A = 5', 'B', 'C = 1'], False, True), (['A = 5', 'B', 'C = 7'], True, True),
@@ -452,6 +478,10 @@ def c15_cases(tier):
         e_priv = enum_src(['#[enum_tools(next, iter(struct_name = "Walk"), names(struct_name = "Labels", vis = "pub"))]'], 'u8', vs)
         add('struct_name/%s/twin' % shape, e_priv, ['pub fn probe() { let _: Walk = E::iter(); let _: Labels = E::names(); }'], 'accept')
         add('struct_name-default-gone/%s' % shape, e_priv, ['pub fn probe() { let _: EIter = E::iter(); }'], 'reject')
+        # parameter values are string *values*: raw strings and escapes name the same items and visibilities as plain literals
+        e_raw = enum_src(['#[enum_tools(next(vis = r"pub(crate)", name = r#"succ"#), MIN(name = "F\\x49RST", vis = "pu\\u{62}"), iter(struct_name = r#"Walk"#, vis = r"pub"), as_str(vis = "pub(cr\\x61te)", name = "la\\x62el"), names(struct_name = "L\\u{61}bels"))]'], 'u8', vs)
+        add('string-values/%s/twin' % shape, e_raw, ['pub fn probe() { let _ = E::A.succ(); let _ = E::FIRST; let _: Walk = E::iter(); let _ = E::A.label(); let _: Labels = E::names(); }'], 'accept')
+        add('string-values/%s/default-name-gone' % shape, e_raw, ['pub fn probe() { let _ = E::A.next(); }'], 'reject')
     return out
 
 # ------------------------------------------------------------------------------------------------ mutations of random supported instances
